@@ -7,6 +7,7 @@ package tsrc
 import (
 	"fmt"
 	"runtime"
+	"sort"
 	"strconv"
 	"strings"
 	"sync"
@@ -387,6 +388,15 @@ func (r *Runner) Run() {
 		return true
 	})
 	c.Set("distinct_witness_keys", len(r.Found))
+	var ks []string
+	for k, ki := range r.Found {
+		ks = append(ks, fmt.Sprintf("%s  [%s, %d programs]", k, ki.Class, ki.Hits))
+	}
+	sort.Strings(ks)
+	if len(ks) > 400 {
+		ks = ks[:400]
+	}
+	c.Set("witness_keys", ks)
 	c.Set("reductions", r.reductions)
 	c.Set("reduction_oracle_runs", r.redTests)
 	c.Set("reductions_text_only", r.textOnly)
